@@ -95,8 +95,12 @@ func preBlock(fw *formatWriter, source []byte, cursor *commonmark.Cursor) (child
 			// Disambiguate from front matter.
 			fw.s("***\n\n")
 		case cursor.ParentBlock().IsTightList():
-			// A blank line after the break would make the list loose.
-			fw.s("\n---\n")
+			// A blank line before or after the break would make the list loose,
+			// and "---" directly below a paragraph would be a setext heading underline.
+			if fw.startedLine {
+				fw.s("\n")
+			}
+			fw.s("***\n")
 		default:
 			fw.s("\n---\n\n")
 		}
